@@ -1,13 +1,15 @@
 /- Native model driver for engine `duties` (C16). One op per line on stdin, one observation per line on stdout.
 
-   reset kind=att|prop|sync spe=<n> epp=<n> clock=<slot> f1=<res>     start a case (initial duties use f1)
-   tick slot=<s> clock=<c> f1=<res> f2=<res>
+   reset kind=att|prop|sync spe=<n> epp=<n> clock=<slot> shares=<shares> f1=<chain>   start a case (initial duties use f1)
+   tick slot=<s> clock=<c> f1=<chain> f2=<chain>
    reorg slot=<s> prev=0|1 cur=0|1
    indices clock=<c>
-   <res> ::= n | f | ok:<committee>:<duties>     committee ::= - | v.v.v     duties ::= - | s/v/t;s/v/t
+   shares set=<shares>                                   the registry changes (no notice to the handler)
+   <chain>  ::= f | ok:<duties>          duties ::= - | s/v/t;s/v/t     (what the beacon node would answer, for anybody)
+   <shares> ::= - | v/<own><liq>/<st>;…  st ::= a (attesting) | q<epoch> (pending queued, activation) | o (other) | n (no metadata)
    observation: atoms in order, `F<epoch arg>:ok|fail|noidx` and non-empty `X[s/v/t,...]` (sorted), or `-` when there is none. -/
 import Ssv.Common.Wire
-import Ssv.Model.Duties
+import Ssv.Model.DutiesIndices
 open Ssv Ssv.Duties Ssv.Wire
 
 def parseNats (sep : String) (s : String) : Option (List Nat) :=
@@ -20,15 +22,33 @@ def parseDuty (s : String) : Option Duty :=
     pure ⟨x, y, z⟩
   | _ => none
 
-def parseRes (s : String) : Option FetchRes :=
-  if s = "n" then some .noIdx
-  else if s = "f" then some .fail
+def parseChain (s : String) : Option Chain :=
+  if s = "f" then some .fail
   else match s.splitOn ":" with
-    | ["ok", c, d] => do
-      let cs ← parseNats "." c
+    | ["ok", d] => do
       let ds ← if d = "-" then some [] else (d.splitOn ";").mapM parseDuty
-      pure (.ok cs ds)
+      pure (.ok ds)
     | _ => none
+
+def parseStatus (s : String) : Option ShareStatus :=
+  if s = "a" then some .attesting
+  else if s = "o" then some .other
+  else if s = "n" then some .noMeta
+  else if s.startsWith "q" then (s.drop 1).toString.toNat?.map ShareStatus.pendingQueued
+  else none
+
+def parseShare (s : String) : Option Share :=
+  match s.splitOn "/" with
+  | [v, fl, st] => do
+    let vi ← v.toNat?
+    let stt ← parseStatus st
+    match fl.toList with
+    | [o, l] => pure ⟨vi, o == '1', l == '1', stt⟩
+    | _ => none
+  | _ => none
+
+def parseShares (s : String) : Option (List Share) :=
+  if s = "-" then some [] else (s.splitOn ";").mapM parseShare
 
 def dutyLe (a b : Duty) : Bool :=
   a.slot < b.slot || (a.slot == b.slot && (a.vidx < b.vidx || (a.vidx == b.vidx && a.tag ≤ b.tag)))
@@ -58,10 +78,11 @@ def showAtoms (l : List Atom) : String :=
 structure DState where
   k : Kind
   n : Net
+  shares : List Share
   st : RState
 
 def natArg (ws : List String) (k : String) : Option Nat := (kv ws k).bind (·.toNat?)
-def resArg (ws : List String) (k : String) : Option FetchRes := (kv ws k).bind parseRes
+def chainArg (ws : List String) (k : String) : Option Chain := (kv ws k).bind parseChain
 def boolArg (ws : List String) (k : String) : Option Bool := (natArg ws k).map (· != 0)
 
 def stepLine (s : Option DState) (line : String) : Option DState × String :=
@@ -70,34 +91,35 @@ def stepLine (s : Option DState) (line : String) : Option DState × String :=
   | some "reset" =>
     let kind := match kv ws "kind" with
       | some "att" => some Kind.att | some "prop" => some Kind.prop | some "sync" => some Kind.sync | _ => none
-    match kind, natArg ws "spe", natArg ws "epp", natArg ws "clock", resArg ws "f1" with
-    | some k, some spe, some epp, some c, some r =>
+    match kind, natArg ws "spe", natArg ws "epp", natArg ws "clock", chainArg ws "f1", (kv ws "shares").bind parseShares with
+    | some k, some spe, some epp, some c, some ch, some sh =>
       let n : Net := ⟨spe, epp⟩
       if n.ok then
-        let (st, o) := initH k n c r
-        (some ⟨k, n, st⟩, showAtoms o)
+        let (st, o) := initH k n c (resolveInit k n sh c ch)
+        (some ⟨k, n, sh, st⟩, showAtoms o)
       else (none, "bad-params")
-    | _, _, _, _, _ => (none, "bad-op")
+    | _, _, _, _, _, _ => (none, "bad-op")
   | some op =>
     match s with
     | none => (none, "no-state")
     | some d =>
-      let ev : Option Event :=
+      let ev : Option EnvEvent :=
         if op = "tick" then
-          match natArg ws "slot", natArg ws "clock", resArg ws "f1", resArg ws "f2" with
+          match natArg ws "slot", natArg ws "clock", chainArg ws "f1", chainArg ws "f2" with
           | some a, some b, some r1, some r2 => some (.tick a b r1 r2)
           | _, _, _, _ => none
         else if op = "reorg" then
           match natArg ws "slot", boolArg ws "prev", boolArg ws "cur" with
           | some a, some p, some c => some (.reorg a p c)
           | _, _, _ => none
-        else if op = "indices" then (natArg ws "clock").map Event.indices
+        else if op = "indices" then (natArg ws "clock").map EnvEvent.indices
+        else if op = "shares" then ((kv ws "set").bind parseShares).map EnvEvent.shares
         else none
       match ev with
       | none => (s, "bad-op")
       | some e =>
-        let (st, o) := step d.k d.n d.st e
-        (some { d with st := st }, showAtoms o)
+        let (sh, st, o) := stepE d.k d.n d.shares d.st e
+        (some { d with shares := sh, st := st }, showAtoms o)
   | none => (s, "bad-op")
 
 def main : IO Unit := do
